@@ -638,7 +638,91 @@ Lemma mk_handler_desc mode fixed : mode <> 2 -> mode <> 4 ->
   forall m, mk_handler mode fixed m = mk_dhandler mode fixed (desc_of m).
 Proof.
   intros H2 H4 m. unfold mk_handler, mk_dhandler, desc_of. cbn [fst].
-  destruct mode as [|[[p|p|]|[p|[p|p|]|]|]]; try reflexivity; exfalso; congruence.
+  destruct (N.eqb_spec mode 0); [reflexivity|]. destruct (N.eqb_spec mode 1); [reflexivity|].
+  destruct (N.eqb_spec mode 2); [contradiction|]. destruct (N.eqb_spec mode 3); [reflexivity|].
+  destruct (N.eqb_spec mode 4); [contradiction|]. reflexivity.
+Qed.
+
+(* ---- replies seen through their length (large replies) ---- *)
+
+Lemma fill_iter a b k : forall s acc, lenN (snd (N.iter k (fill_step a b) (s, acc))) = k + lenN acc.
+Proof.
+  induction k as [|k IH] using N.peano_ind; intros s acc.
+  - cbn. lia.
+  - rewrite N.iter_succ. unfold fill_step at 1. cbn [snd lenN]. rewrite IH. lia.
+Qed.
+
+Lemma lenN_fill n a b : lenN (fill n a b) = n.
+Proof. unfold fill. rewrite fill_iter. cbn [lenN]. lia. Qed.
+
+Lemma mk_handler_len mode fixed : mode <> 2 -> mode <> 4 ->
+  forall m, option_map lenN (mk_handler mode fixed m) = mk_lhandler mode (lenN fixed) (desc_of m).
+Proof.
+  intros H2 H4 m. unfold mk_handler, mk_lhandler, desc_of. cbn [fst].
+  destruct (N.eqb_spec mode 0); [reflexivity|]. destruct (N.eqb_spec mode 1); [reflexivity|].
+  destruct (N.eqb_spec mode 2); [contradiction|]. destruct (N.eqb_spec mode 3); [reflexivity|].
+  destruct (N.eqb_spec mode 4); [contradiction|].
+  destruct (N.eqb_spec mode 6); [cbn [option_map]; rewrite lenN_fill; reflexivity|].
+  destruct (fst m mod 3) as [|[q|q|]]; reflexivity.
+Qed.
+
+Lemma reply_msgs_cons h m ms :
+  reply_msgs h (m :: ms) = (match h m with Some r => [(fst m, r)] | None => [] end) ++ reply_msgs h ms.
+Proof. reflexivity. Qed.
+
+Lemma reply_descs_cons hl d ds :
+  reply_descs hl (d :: ds) = (match hl d with Some n => [(fst d, n)] | None => [] end) ++ reply_descs hl ds.
+Proof. reflexivity. Qed.
+
+Lemma reply_msgs_descs h hl ms : (forall m, option_map lenN (h m) = hl (desc_of m)) ->
+  map desc_of (reply_msgs h ms) = reply_descs hl (map desc_of ms).
+Proof.
+  intros Hh. induction ms as [|m ms IH]; [reflexivity|].
+  rewrite reply_msgs_cons. cbn [map]. rewrite reply_descs_cons, map_app. f_equal; [|exact IH].
+  rewrite <- (Hh m). destruct (h m) as [r|]; reflexivity.
+Qed.
+
+Lemma tail_written_desc t : written (tail_out t) = tail_written_d (desc_tail t).
+Proof.
+  destruct t as [|hdr e|p]; cbn [tail_out desc_tail tail_written_d]; [reflexivity| |].
+  - destruct (is_legacy_agent hdr); reflexivity.
+  - destruct (lenN p =? 0); [reflexivity|]. destruct (lenN p <? 8); reflexivity.
+Qed.
+
+Lemma predict_class_alloc h ms t :
+  end_class (ended (predict h ms t)) = tail_class_d (desc_tail t) /\
+  allocs_bounded (predict h ms t) =
+    forallb (fun d => snd d <=? 2097152) (map desc_of ms) && tail_alloc_ok_d (desc_tail t).
+Proof.
+  unfold predict, allocs_bounded. cbn [allocs ended].
+  rewrite forallb_app, !forallb_map_c. cbn [snd desc_of].
+  destruct t as [|hdr e|p]; cbn [tail_out desc_tail tail_class_d tail_alloc_ok_d].
+  - split; reflexivity.
+  - destruct (is_legacy_agent hdr); split; reflexivity.
+  - destruct (N.eqb_spec (lenN p) 0) as [E0|E0].
+    + rewrite E0. split; reflexivity.
+    + destruct (N.ltb_spec (lenN p) 8) as [E8|E8]; [split; reflexivity|].
+      cbn [allocs ended end_class forallb]. rewrite le32_dec_takeN8 by exact E8.
+      rewrite andb_true_r. split; reflexivity.
+Qed.
+
+(* the written bytes are the frames rs followed by the tail's answer, and the descriptors of what was
+   delivered and of rs are the ones predict_dl computes from the request descriptors alone *)
+Lemma serve_predict_dl h hl ms t cs fuel :
+  (forall m, option_map lenN (h m) = hl (desc_of m)) ->
+  Forall valid_msg ms -> tail_ok t -> chunking cs (encode ms ++ tail_bytes t) -> (length ms < fuel)%nat ->
+  exists rs,
+    written (serve fuel h cs) = encode rs ++ tail_written_d (desc_tail t) /\
+    (map desc_of (delivered (serve fuel h cs)), map desc_of rs, tail_written_d (desc_tail t),
+     end_class (ended (serve fuel h cs)), allocs_bounded (serve fuel h cs))
+    = predict_dl hl (map desc_of ms) (desc_tail t).
+Proof.
+  intros Hh Hv Ht Hc Hf. exists (reply_msgs h ms).
+  rewrite (serve_predict h ms t cs fuel Hv Ht Hc Hf).
+  destruct (predict_class_alloc h ms t) as [Hcl Hal]. rewrite Hcl, Hal.
+  unfold predict_dl. rewrite (reply_msgs_descs h hl ms Hh).
+  split; [|reflexivity].
+  unfold predict. cbn [written]. rewrite replies_encode, tail_written_desc. reflexivity.
 Qed.
 
 (* ------------------------------------------------------------------ *)
